@@ -96,23 +96,8 @@ def check(prog: Program, tier: str) -> Result:
     res.count("paths", len(ma.paths))
 
     # ---- R06.0 shape
-    for s in ma.bad_writes:
-        res.violation("R06.0", norm_stmt(s), prog.loc(fi, s), fi.qualname,
-                      "self.load / self.hour is written by something other than the append idiom "
-                      "(the load sequence is no longer the concatenation of the emitted pairs)")
-    other_writers = []
-    for q, f in prog.funcs.items():
-        if f.module != fi.module or f is fi or f.cls != fi.cls:
-            continue
-        for n in ast.walk(f.node):
-            if isinstance(n, (ast.Assign, ast.AugAssign)):
-                tg = n.targets if isinstance(n, ast.Assign) else [n.target]
-                for t in tg:
-                    if attr_chain(t) in ("self.load", "self.hour") and f.name != "__init__":
-                        other_writers.append((f, n))
-    for f, n in other_writers:
-        res.violation("R06.0", f"{f.qualname}:{norm_stmt(n)}", prog.loc(f, n), f.qualname,
-                      "self.load / self.hour is written outside process_month_loads")
+    for key_, where_, qn_, msg_ in hc.shape_findings(prog, ma):
+        res.violation("R06.0", key_, where_, qn_, msg_)
     it = ma.loop.iter
     ok_iter = (isinstance(it, ast.Call) and attr_chain(it.func) == "range" and len(it.args) == 2
                and ast.unparse(it.args[0]) == "self.start_month"
